@@ -127,6 +127,33 @@ def wire(fcp: "ref:FcpV2", t: "ref:Type", v: "dyn") -> "seq[int]":
     return word_bits(1, 8) + wire(fcp, t.underlying_type, v)
 
 
+def min_wire(fcp: "ref:FcpV2", t: "ref:Type") -> "int":
+    """C16: the fewest bits any value of type t occupies on the wire (what a decoder must consume before it can return)"""
+    if isinstance(t, UnsignedType) or isinstance(t, SignedType):
+        return num_width(t)
+    if isinstance(t, FloatType):
+        return 32
+    if isinstance(t, DoubleType):
+        return 64
+    if isinstance(t, EnumType):
+        return enum_width(enum_of(fcp, t.name))
+    if isinstance(t, StringType):
+        return 32
+    if isinstance(t, StructType):
+        return min_fields(fcp, sorted_fields(struct_of(fcp, t.name)), len(sorted_fields(struct_of(fcp, t.name))))
+    if isinstance(t, ArrayType):
+        return t.size * min_wire(fcp, t.underlying_type)
+    if isinstance(t, DynamicArrayType):
+        return 32
+    return 8
+
+
+def min_fields(fcp: "ref:FcpV2", fs: "seq[ref:StructField]", k: "int") -> "int":
+    if k <= 0:
+        return 0
+    return min_fields(fcp, fs, k - 1) + min_wire(fcp, fs[k - 1].type)
+
+
 def wire_chars(cs: "seq[char]", k: "int") -> "seq[int]":
     if k <= 0:
         return seq_empty("int")
